@@ -1,0 +1,13 @@
+//go:build !verif
+
+package graph
+
+// Verification hooks (see /verif). With the build tag `verif` off they are no-ops.
+
+func (wg *WeightedAuthorizationModelGraph) verifAssignWeightsForced() (bool, error) {
+	return false, nil
+}
+
+func verifObserveRoot(*WeightedAuthorizationModelGraph, string) {}
+
+func verifObserveStructure(*WeightedAuthorizationModelGraph) {}
